@@ -510,6 +510,44 @@ pub fn run_observe(ctx: &mut Ctx, which: &str) {
             }
         }
     }
+    // many endpoints on ONE resource, registered at different times so that their counts differ:
+    // evictions then hit the middle of the list while later observers survive (order must be kept)
+    let nstag = (budget / 2).max(if level == 0 { 3 } else { 60 });
+    let one_path = vec!["r".to_string()];
+    for _ in 0..nstag {
+        let limit = *r.pick(&[0u8, 1, 2, 3]);
+        let neps = r.urange(3, 6) as u8;
+        let mut ops: Vec<Op> = Vec::new();
+        let mut mid = r.next_u64() as u16;
+        let mut next_ep = 0u8;
+        for _ in 0..r.urange(12, 40) {
+            match r.below(10) {
+                0..=2 if next_ep < neps => {
+                    ops.push(Op::Register { ep: next_ep, token: vec![next_ep], path: "r".into() });
+                    next_ep += 1;
+                }
+                3 => {
+                    let ep = r.below(neps as u64) as u8;
+                    ops.push(Op::Ack { ep, mid });
+                }
+                4 => {
+                    let ep = r.below(neps as u64) as u8;
+                    ops.push(Op::Register { ep, token: vec![ep, 9], path: "r".into() });
+                }
+                _ => {
+                    mid = mid.wrapping_add(1);
+                    ops.push(Op::Changed { path: "r".into(), mid, con: r.chance(5, 6) });
+                }
+            }
+        }
+        rep.eval();
+        rep.distinct(fnv(history_text(limit, &ops).as_bytes()));
+        match run_history(rep, limit, &ops, &one_path, false, which) {
+            Ok(()) => rep.count("staggered_histories_held"),
+            Err((sig, detail, step)) => rep.violation(&sig, format!("step {}: {}", step, detail), history_text(limit, &ops[..=step.min(ops.len() - 1)])),
+        }
+    }
+    rep.floor("staggered_histories_held", 1);
     if is15 {
         directed_long(rep, level, shard, nshards, which);
         notification_builder(rep, &mut r);
